@@ -602,8 +602,9 @@ void Ports::dispatch(const char *m, rtosc::RtData &d, bool base_dispatch) const
             //Compute the hash
             int t = len;
             for(auto p:impl->pos)
-                if(p < (int)len)
-                    t += impl->assoc[m[p]];
+                if(p < (int)len &&
+                   (size_t)(unsigned char)m[p] < impl->assoc.size())
+                    t += impl->assoc[(unsigned char)m[p]];
             if(t >= (int)impl->remap.size() && !default_handler)
                 return;
             else if(t >= (int)impl->remap.size() && default_handler) {
